@@ -62,6 +62,8 @@ type Case struct {
 	NarrowMembers []int `json:"narrow_members,omitempty"`
 	// MaxBytes of the readers (0 = 1 MiB): small values make the broker end fetch responses inside a batch.
 	MaxBytes int `json:"max_bytes,omitempty"`
+	// ReverseOffsetFetch: the coordinator lists the partitions of its OffsetFetch answers in reverse order.
+	ReverseOffsetFetch bool `json:"reverse_offset_fetch,omitempty"`
 }
 
 // AppEvent is one application-side observation.
@@ -130,6 +132,7 @@ func Run(c Case) *Result {
 	res := &Result{Case: c, Stored: map[string][][]refcodec.Record{}, CloseTook: map[int]time.Duration{}, Crashed: map[int]bool{}, Closed: map[int]bool{}, MemberIDs: map[int][]string{}, ConnsOf: map[int][]int{}}
 	nw := memnet.New()
 	cl := fakecluster.New(nw, c.Brokers)
+	cl.ReverseOffsetFetchOrder = c.ReverseOffsetFetch
 	res.Cluster, res.Net = cl, nw
 	nextOff := map[string][]int64{}
 	seqNo := 0
